@@ -19,6 +19,11 @@ theorem no_loop_variable_captured : loopCaptures = [] := by decide
 /-- `Done()` is only ever called from inside the goroutine it accounts for. -/
 theorem done_only_in_goroutines : doneOutsideGo = [] := by decide
 
+/-- The WaitGroup is raised only by the goroutine that later waits, before it spawns anything: an
+    `Add` made by a spawned goroutine (a launcher counting the workers it starts) can come after
+    the waiter has seen the counter at zero, and the block then ends before those workers have. -/
+theorem add_only_before_spawn : addInsideGo = [] := by decide
+
 /-- Every worker closure signals `Done` exactly once, as a top-level statement of the closure, not
     deferred and with no `return` in front of it; the four launcher closures of a conc block (which
     only start the workers of one kind of child) and the pool's hand-back goroutine signal none. -/
